@@ -1408,15 +1408,22 @@ func (c *compiler) VisitBinaryExpr(e *ast.BinaryExpr) ast.VisitResult {
 		log10_base := c.cbb.NewCall(c.functions["log10"].irFunc, rhs)
 		c.latestReturn = c.cbb.NewFDiv(log10_num, log10_base)
 		c.latestReturnType = c.ddpfloattyp
-	case ast.BIN_LOGIC_AND:
-		c.latestReturn = c.cbb.NewAnd(lhs, rhs)
-		c.latestReturnType = c.ddpinttyp
-	case ast.BIN_LOGIC_OR:
-		c.latestReturn = c.cbb.NewOr(lhs, rhs)
-		c.latestReturnType = c.ddpinttyp
-	case ast.BIN_LOGIC_XOR:
-		c.latestReturn = c.cbb.NewXor(lhs, rhs)
-		c.latestReturnType = c.ddpinttyp
+	case ast.BIN_LOGIC_AND, ast.BIN_LOGIC_OR, ast.BIN_LOGIC_XOR:
+		// two Bytes stay a Byte, otherwise both operands are widened to Zahl (just like the typechecker expects)
+		var resultTyp ddpIrType = c.ddpbytetyp
+		if lhsTyp != c.ddpbytetyp || rhsTyp != c.ddpbytetyp {
+			lhs, rhs = c.floatOrByteAsInt(lhs, lhsTyp), c.floatOrByteAsInt(rhs, rhsTyp)
+			resultTyp = c.ddpinttyp
+		}
+		switch e.Operator {
+		case ast.BIN_LOGIC_AND:
+			c.latestReturn = c.cbb.NewAnd(lhs, rhs)
+		case ast.BIN_LOGIC_OR:
+			c.latestReturn = c.cbb.NewOr(lhs, rhs)
+		case ast.BIN_LOGIC_XOR:
+			c.latestReturn = c.cbb.NewXor(lhs, rhs)
+		}
+		c.latestReturnType = resultTyp
 	case ast.BIN_MOD:
 		if lhsTyp == c.ddpbytetyp && rhsTyp == c.ddpbytetyp {
 			c.latestReturn = c.cbb.NewURem(lhs, rhs)
@@ -1426,11 +1433,11 @@ func (c *compiler) VisitBinaryExpr(e *ast.BinaryExpr) ast.VisitResult {
 			c.latestReturnType = c.ddpinttyp
 		}
 	case ast.BIN_LEFT_SHIFT:
-		c.latestReturn = c.cbb.NewShl(lhs, rhs)
-		c.latestReturnType = c.ddpinttyp
+		// the result has the type of lhs, so the shift amount is brought to the same width
+		c.latestReturn = c.cbb.NewShl(lhs, c.numericCast(rhs, rhsTyp, lhsTyp))
 		c.latestReturnType = lhsTyp
 	case ast.BIN_RIGHT_SHIFT:
-		c.latestReturn = c.cbb.NewLShr(lhs, rhs)
+		c.latestReturn = c.cbb.NewLShr(lhs, c.numericCast(rhs, rhsTyp, lhsTyp))
 		c.latestReturnType = lhsTyp
 	case ast.BIN_EQUAL:
 		c.compare_values(lhs, rhs, lhsTyp)
